@@ -267,6 +267,26 @@ Theorem C10_model_satisfies_boolean_property : forall c o,
 Proof. exact model_satisfies_Pb. Qed.
 Print Assumptions C10_model_satisfies_boolean_property.
 
+(* [Pb c] is "the four observables the property speaks about (arity, result,
+   response, error) are the expected ones", where [expected] is computed from
+   the declared signature, the scenario and the measured json behaviour alone;
+   the model's observation is that expected one on every case ... *)
+Theorem C10_model_observation_is_expected : forall c m,
+  wf_results (c_results c) = true -> single_names (c_results c) = true ->
+  law_ok c = true -> model_obs c = Some m -> pobs_of m = expected c.
+Proof. exact model_obs_is_expected. Qed.
+Print Assumptions C10_model_observation_is_expected.
+
+(* ... hence an implementation observation satisfies the boolean property iff
+   it agrees with the model on these observables (a "differs but the property
+   holds" verdict can only come from the body events read / Close) *)
+Theorem C10_boolean_property_iff_agreement_with_model : forall c m,
+  wf_results (c_results c) = true -> single_names (c_results c) = true ->
+  law_ok c = true -> model_obs c = Some m ->
+  (Pb c = true <-> pobs_of (c_obs c) = pobs_of m).
+Proof. exact Pb_iff_agrees_with_model. Qed.
+Print Assumptions C10_boolean_property_iff_agreement_with_model.
+
 (* ------------------------------------------------------------------ *)
 (* non-vacuity: concrete inputs meeting the hypotheses                  *)
 
@@ -330,3 +350,16 @@ Example C10_example_emitted_program :
      GIfErrReturn [XNil; XResp; XErr];
      GReturn [XAddrVar; XResp; XNil]].
 Proof. eexists; split; reflexivity. Qed.
+
+(* a concrete correspondence case meeting the hypotheses of the two theorems about [Pb] *)
+Definition ex_case : case :=
+  {| c_body_verb := false; c_results := ex_ptr;
+     c_out := OResp {| r_id := 1; r_status := 404; r_body := {| b_data := "gone"; b_fault := None |} |};
+     c_zero := {| v_json := "{}"; v_nil := false |};
+     c_dec := ({| v_json := "{}"; v_nil := false |}, Some (DOther 2%nat));
+     c_obs := {| ob_nout := 3; ob_res := Some ONil; ob_resp := RSame; ob_err := EMsg "client error 404: gone";
+                 ob_read := true; ob_closed := 1 |} |}.
+Example C10_example_case :
+  wf_results (c_results ex_case) = true /\ single_names (c_results ex_case) = true /\ law_ok ex_case = true /\
+  model_obs ex_case = Some (c_obs ex_case) /\ Pb ex_case = true /\ verdict ex_case = 0%N.
+Proof. repeat split; vm_compute; reflexivity. Qed.
